@@ -76,6 +76,11 @@ def generate(tier, rng):
         c = fc.mk("nm", False, w + 1, [{"op": "ctor", "p": None, "cs": kids, "as": "list"}], cls="node")
         c["loglevel"] = 0
         yield c
+    for n0, ops in fc.reentrant_histories(rng, tier):
+        fl = rng.choice(["nm", "light"])
+        c = fc.mk(fl, False, n0, ops, cls=(rng.choice(fc.NM_CLASSES) if fl == "nm" else None))
+        c["loglevel"] = 0
+        yield c
     for n0, ops in fc.wide_histories(rng, tier, faults=False):
         fl = rng.choice(["nm", "light"])
         if any(fc.has_nonnode(o) for o in ops):
